@@ -321,6 +321,11 @@ def _estimate_scripts(c):
     return count(ndraws(nn) + (zdraws(nz) if kind == "STRATIFIED" else nz))
 
 
+def _orders(nnz):
+    """Stored orders of the nonzeros of an sptensor: column-major (sorted linear index) and its reverse."""
+    return ("fwd", "rev") if nnz >= 2 else ("fwd",)
+
+
 def _sampler_cases(tier, seed):
     th = tier == "thorough"
     out = []
@@ -346,14 +351,16 @@ def _sampler_cases(tier, seed):
         # uniform: values only - three patterns suffice
         for pat in (pats[0], pats[len(pats) // 2], pats[-1]):
             for holder in ("tensor", "sptensor"):
-                for cnt in range(0, n + 3):
-                    if cnt > 6 and not th:
-                        continue
-                    add("uniform", shape, pat, {"n": cnt}, holder=holder)
+                for order in (_orders(sum(pat)) if holder == "sptensor" else ("fwd",)):
+                    for cnt in range(0, n + 3):
+                        if cnt > 6 and not th:
+                            continue
+                        add("uniform", shape, pat, {"n": cnt}, holder=holder, order=order)
         for pat in pats:
             nnz = sum(pat)
             nzr = n - nnz
-            orders = ("fwd", "rev") if 2 <= nnz <= 3 else ("fwd",)
+            # stored order of the nonzeros: a dimension of EVERY operation that is handed the sptensor
+            orders = _orders(nnz)
             for order in orders:
                 for cnt in range(0, nnz + 3):
                     for repl in (True, False):
@@ -375,11 +382,12 @@ def _sampler_cases(tier, seed):
                 grid = sorted({(1, b) for b in (0, 1, 2, nzr, nzr + 1)} | {(a, 1) for a in (0, 2, nnz, nnz + 1)}
                               | {(0, 0), (2, 2)})
             for (a, b) in grid:
-                for order in (orders if th else orders[:1]):
+                for order in orders:
                     add("stratified", shape, pat, {"nn": a, "nz": b}, order=order)
             sgrid = [(a, b) for a in range(0, 3) for b in range(0, 3)] if small else [(0, 1), (1, 0), (1, 1), (2, 2)]
             for (a, b) in sgrid:
-                add("semistrat", shape, pat, {"nn": a, "nz": b})
+                for order in orders:
+                    add("semistrat", shape, pat, {"nn": a, "nz": b}, order=order)
             # GCPSampler: configuration lattice
             cls = _pattern_classes(n)
             if small and not th and pat not in (pats[0], pats[2], pats[5], pats[10], pats[12], pats[15]):
@@ -388,12 +396,15 @@ def _sampler_cases(tier, seed):
                 continue
             cnt_forms = [None, 1, 2, [1, 2], [2, 0]] if small else [None, 2, [1, 2]]
             ucnt_forms = [None, 1, 3] if small else [None, 2]
-            for fs in (None, "UNIFORM", "STRATIFIED"):
-                for fn in (ucnt_forms if fs == "UNIFORM" else cnt_forms):
-                    add("gcp", shape, pat, {"fs": fs, "fn": fn, "gs": None, "gn": None, "which": "function"})
-            for gs in (None, "UNIFORM", "STRATIFIED", "SEMISTRATIFIED"):
-                for gn in (ucnt_forms if gs == "UNIFORM" else cnt_forms):
-                    add("gcp", shape, pat, {"fs": None, "fn": None, "gs": gs, "gn": gn, "which": "gradient"})
+            for order in orders:
+                for fs in (None, "UNIFORM", "STRATIFIED"):
+                    for fn in (ucnt_forms if fs == "UNIFORM" else cnt_forms):
+                        add("gcp", shape, pat, {"fs": fs, "fn": fn, "gs": None, "gn": None, "which": "function"},
+                            order=order)
+                for gs in (None, "UNIFORM", "STRATIFIED", "SEMISTRATIFIED"):
+                    for gn in (ucnt_forms if gs == "UNIFORM" else cnt_forms):
+                        add("gcp", shape, pat, {"fs": None, "fn": None, "gs": gs, "gn": gn, "which": "gradient"},
+                            order=order)
             for (fn, gn) in ([(None, None), (2, 3)] if small else [(None, None)]):
                 for which in ("function", "gradient"):
                     add("gcp", shape, pat, {"fs": None, "fn": fn, "gs": None, "gn": gn, "which": which},
@@ -427,6 +438,19 @@ def _members(tier, seed):
     return [(seed + i) % len(POOL) for i in range(k)]
 
 
+# f_est_tol as a multiple of the objective F0 of the starting guess (towards the better side for a factor < 1,
+# towards the worse side for a factor > 1, whatever the sign of F0); "inf": met by every finite value
+TOLS = [0.98, 0.5, 1.02, 1e3, "inf"]
+
+
+def _tol_value(tol, F0):
+    if tol is None:
+        return -np.inf
+    if tol == "inf":
+        return np.inf
+    return F0 * tol if F0 > 0 else F0 / tol
+
+
 def _solver_cases(tier, seed):
     th = tier == "thorough"
     rates = [1e-3, 1e-2, 1e-1, 1.0, 10.0] if th else [1e-3, 1e-1, 10.0]
@@ -445,14 +469,16 @@ def _solver_cases(tier, seed):
                                         "max_iters": list(range(0, 7 if th else 5)),
                                         "epoch_iters": [1, 2, 3] if th else [1, 2],
                                         "tol": [None], "via": ["solve"]})
-    # slices: f_est_tol stop, the gcp_opt driver
+    # slices: f_est_tol stop, the gcp_opt driver.  The tolerance is placed on BOTH sides of the objective of the
+    # starting guess (TOLS): below it (reached, if at all, by a successful epoch) and above it (already met by the
+    # start - a warm start - so that it is also met by an epoch that made the model worse).
     for opt in ("SGD", "Adam", "Adagrad"):
         for loss in ("GAUSSIAN", "POISSON"):
             for d in _members(tier, seed):
-                for rate in ([1e-2, 1e-1, 10.0] if th else [1e-1, 10.0]):
+                for rate in ([1e-3, 1e-2, 1e-1, 10.0] if th else [1e-3, 1e-1, 10.0]):
                     out.append({"check": "solver", "opt": opt, "loss": loss, "data": d, "rank": 2, "rate": rate,
-                                "decay": 0.1, "seed": seed, "max_fails": [1], "max_iters": [0, 1, 3],
-                                "epoch_iters": [2], "tol": [0.98, 0.5], "via": ["solve"]})
+                                "decay": 0.1, "seed": seed, "max_fails": [0, 1], "max_iters": [0, 1, 3],
+                                "epoch_iters": [1, 2], "tol": TOLS, "via": ["solve"]})
                     out.append({"check": "solver", "opt": opt, "loss": loss, "data": d, "rank": 2, "rate": rate,
                                 "decay": 0.1, "seed": seed, "max_fails": [0, 1], "max_iters": [0, 2, 3],
                                 "epoch_iters": [2], "tol": [None], "via": ["gcp_tuple", "gcp_enum"]})
@@ -962,7 +988,7 @@ def _one_solve(c, ctx, ttb):
     K0f = _guess(shape, c["rank"], c.get("seed", 0))
     f, g, lb = _handles(loss)
     F0 = ref_F(loss, X, K0f)
-    tol = -np.inf if c["tol"] is None else F0 * c["tol"] if F0 > 0 else F0 / c["tol"]
+    tol = _tol_value(c["tol"], F0)
     rec = []
 
     def fh(x, m):
@@ -1109,6 +1135,10 @@ def _one_solve(c, ctx, ttb):
         ctx.flag("solver:success_after_fail")
     if c["tol"] is not None and performed >= 1 and t[performed] < tol:
         ctx.flag("solver:tol_stop")
+        if t[0] < tol:
+            ctx.flag("solver:tol_met_by_start")
+        if word.endswith("F"):
+            ctx.flag("solver:tol_stop_on_failed_epoch")
     if lb > -np.inf and any((m == lb).any() for m in ret_f):
         ctx.flag("solver:bound_active")
 
